@@ -366,3 +366,6 @@ B("c02-markup-offset-not-translated", ["C02"], "find.py", "                span_
 B("c02-balancer-not-rebased", ["C02"], "utils.py", "                start = extended_start + matches[-1].start()\n", "                start = matches[-1].start()\n", rule="R-C02-1")
 N("c02-max-arg-order", ["C02"], "helpers.py", "            from_token.end + max(extra_chars - len(prefix), 0),\n", "            from_token.end + max(0, extra_chars - len(prefix)),\n")
 B("c10-revert-index-clamp", ["C10"], "annotate.py", "        index = max(bisect(self.offsets, offset) - 1, 0)\n", "        index = bisect(self.offsets, offset) - 1\n", rule="C10-R8")
+B("c01-edition-not-escaped", ["C01"], "tokenizers.py", '        edition = "|".join(re.escape(e) for e in edition_names)\n', '        edition = "|".join(e.replace(".", "") for e in edition_names)\n', rule="R-C01-8")
+B("c01-variations-dropped", ["C01"], "tokenizers.py", "                edition_variations = [\n                    k for k, v in variations.items() if v == edition_name\n                ]\n", "                edition_variations = []\n", rule="R-C01-9")
+B("c01-journals-not-loaded", ["C01"], "tokenizers.py", "    for source_key, source_cluster in JOURNALS.items():\n", "    for source_key, source_cluster in list(JOURNALS.items())[:10]:\n", rule="R-C01-9")
